@@ -368,13 +368,15 @@ def repo_head():
         return None
 
 
-def write_replay(prop, seed, index, scenario, viol, original_size, n_exec, out_dir=None):
+def write_replay(prop, seed, index, scenario, viol, original_size, n_exec, out_dir=None, python_flags=None):
     out_dir = out_dir or os.environ.get('PIPESIM_REPLAY_DIR') or os.path.join(VERIF, 'replays')
     os.makedirs(out_dir, exist_ok=True)
     body = {'format': 1, 'property': prop.ID, 'clause': viol['clause'], 'key': viol['key'],
             'message': viol['message'], 'verif_seed': seed, 'run_index': index, 'scenario': scenario,
             'original_size': original_size, 'minimised_size': scenario_size(scenario),
             'shrink_executions': n_exec, 'repo_head': repo_head()}
+    if python_flags:
+        body['python_flags'] = list(python_flags)       # ./check <ID> --replay re-executes itself with these flags
     h = hashlib.blake2b(json.dumps(body['scenario'], sort_keys=True).encode(), digest_size=4).hexdigest()
     path = os.path.join(out_dir, '%s-%d-%s.json' % (prop.ID, index, h))
     with open(path, 'w') as f:
@@ -420,6 +422,33 @@ COMPONENTS = {
 }
 
 
+def opt_batch(prop, tier, verif_seed, start, n, max_wall):
+    """(child interpreter started with -O) run indices start..start+n-1 and print the outcome as one JSON line"""
+    total = run_batch(prop, tier, verif_seed, n, max_wall, start=start)
+    print('OPTBATCH ' + json.dumps(jsonable({'optimize': sys.flags.optimize, 'done': total['done'], 'nontrivial': total['nontrivial'],
+                                             'violations': total['violations'][:4], 'n_violating': total['n_violating'],
+                                             'harness': total['harness'][:2], 'comparisons': total['comparisons']})))
+    return 0
+
+
+def _run_opt_batch(prop, tier, verif_seed, start, n, max_wall):
+    """A slice of further run indices in an interpreter started with -O: Python then compiles `assert` statements away, a
+    legal way of running any program - code whose behaviour hides inside an assert changes with it."""
+    if sys.flags.optimize or os.environ.get('PIPESIM_OPT_BATCH', '1') == '0' or n <= 0:
+        return None
+    cmd = [sys.executable, '-O', '-W', 'ignore', '-c', 'import sys; from pipesim.cli import main; sys.exit(main(sys.argv[1:]))',
+           prop.ID, '--opt-batch', tier, str(start), str(n), str(max_wall)]
+    try:
+        p = subprocess.run(cmd, capture_output=True, text=True, cwd=VERIF, timeout=max_wall + 120,
+                           env=dict(os.environ, PIPESIM_OPT_BATCH='0', PYTHONPATH=os.environ.get('PYTHONPATH', VERIF)))
+    except subprocess.TimeoutExpired:
+        return {'error': 'the -O batch did not finish within %d s' % (max_wall + 120)}
+    line = [ln for ln in p.stdout.splitlines() if ln.startswith('OPTBATCH ')]
+    if p.returncode != 0 or not line:
+        return {'error': 'the -O batch ended with exit code %s: %s' % (p.returncode, (p.stdout + p.stderr)[-600:])}
+    return json.loads(line[0][9:])
+
+
 def run_check(prop, tier, verif_seed):
     t0 = time.time()
     env.sweep_stale_roots()
@@ -427,6 +456,8 @@ def run_check(prop, tier, verif_seed):
     scale = float(os.environ.get('PIPESIM_SCALE', '1'))
     n_runs = max(1, int(b['runs'] * scale))
     total = run_batch(prop, tier, verif_seed, n_runs, b['max_wall'], chunk=b.get('chunk'))
+    n_opt = max(4, min(int(n_runs * 0.04), b.get('opt_max', 400)))
+    opt = _run_opt_batch(prop, tier, verif_seed, n_runs, n_opt, b['max_wall'] / 5 + 20)
     # determinism spot check: re-execute a sample of runs and compare digests
     redo = max(2, min(int(total['done'] * 0.02), b.get('redo_max', 40)))
     redo = min(redo, total['done'])
@@ -458,6 +489,29 @@ def run_check(prop, tier, verif_seed):
             lines.append('VIOLATION property=%s replay=%s' % (prop.ID, path))
             exit_code = 1
         reported.append({'clause': sig[0], 'key': sig[1], 'known': bool(k), 'replay': path})
+    if opt is not None:
+        if opt.get('error'):
+            lines.append('HARNESS-ERROR: %s' % opt['error'])
+            exit_code = exit_code or 2
+        else:
+            for h in opt.get('harness', [])[:2]:
+                lines.append('HARNESS-ERROR (-O batch) run %s:\n%s' % (h['index'], h['error']))
+                exit_code = exit_code or 2
+            seen_sig = set(groups)
+            for item in opt.get('violations', []):
+                v = item['violations'][0]
+                if (v['clause'], v['key']) in seen_sig:
+                    continue
+                seen_sig.add((v['clause'], v['key']))
+                k = match_known(prop.ID, v, known)
+                path = write_replay(prop, verif_seed, item['index'], item['scenario'], v, scenario_size(item['scenario']), 0, python_flags=['-O'])
+                if k:
+                    lines.append('KNOWN-FINDING: property=%s %s' % (prop.ID, k['what']))
+                else:
+                    lines.append('  (interpreter started with -O) clause=%s key=%s: %s' % (v['clause'], v['key'], v['message']))
+                    lines.append('VIOLATION property=%s replay=%s' % (prop.ID, path))
+                    exit_code = 1
+                reported.append({'clause': v['clause'], 'key': v['key'], 'known': bool(k), 'replay': path, 'python_flags': ['-O']})
     if det_same != det_total:
         # reported and recorded in the evidence, but not an alarm: code under test that puts a pid or a time stamp into what
         # it writes makes runs differ between processes without breaking any property (./check selftest-determinism is
@@ -500,6 +554,9 @@ def run_check(prop, tier, verif_seed):
         'violating_runs': total['n_violating'],
         'reported': reported,
         'workers': int(os.environ.get('PIPESIM_WORKERS', '0')) or min(16, os.cpu_count() or 1),
+        'runs_under_python_O': None if opt is None else ({'error': opt['error']} if opt.get('error') else
+                                                         {'done': opt['done'], 'nontrivial': opt['nontrivial'], 'violating': opt['n_violating'],
+                                                          'run_indices': [n_runs, n_runs + n_opt - 1]}),
     }
     if hasattr(prop, 'extra_coverage'):
         coverage.update(prop.extra_coverage(total))
